@@ -17,6 +17,7 @@ Modelled rather than verified / outside the quantifier:
   sends escaped spellings of names and near-names.
 -/
 import Compass.Gen.Decisions
+import Compass.Gen.FnsC09
 import Compass.Proofs.Num
 import Compass.Model.Units
 import Mathlib.Data.Fintype.OfMap
@@ -699,6 +700,22 @@ theorem src_create_speed {α : Type} [Field α] [LinearOrder α] [IsStrictOrdere
         if bt then none
         else some (baseSpeedUnit.convert su (du.convert baseDistanceUnit distance / tu.convert baseTimeUnit time)) := by
   simp [createSpeed, create_speed_time, Rel.num]
+
+
+/-! ### Generated function bodies
+
+`tools/gen_fns.py` re-translates the body of the Rust function on every run into `Compass/Gen/FnsC09.lean`
+(conventions in the header of the tool).  Each `gen_*_eq` theorem below says that the generated definition
+*is* the hand-written model function the property theorems are about.  A source change to the function
+changes the generated definition and the proof stops checking (a body the translator no longer recognises is
+not emitted: the theorem no longer elaborates). -/
+
+/-- `(d, s).into()` is resolved through the translated `From<(Distance, Speed)> for Time` -/
+theorem gen_create_time_eq {α : Type} [Field α] [LinearOrder α] [IsStrictOrderedRing α] [Lit α] [LawfulLit α] (speed : α) (su : SpeedUnit) (distance : α) (du : DistanceUnit) (tu : TimeUnit) :
+    Gen.create_time speed su distance du tu = createTime speed su distance du tu := rfl
+
+theorem gen_create_speed_eq {α : Type} [Field α] [LinearOrder α] [IsStrictOrderedRing α] [Lit α] [LawfulLit α] (time : α) (tu : TimeUnit) (distance : α) (du : DistanceUnit) (su : SpeedUnit) :
+    Gen.create_speed time tu distance du su = createSpeed time tu distance du su := rfl
 
 end C09
 end Compass
